@@ -210,6 +210,12 @@ def run(ctx):
     rule_no_retry(ctx, facts)
     rule_no_leak(ctx, facts)
     rule_no_self_termination(ctx, facts, "C07-R4")
+    # "the file X is either untouched or completely replaced by *its* new content": what is written over X derives from
+    # X's own bytes only, read in one strict read and handed to the edit unmodified (a shared read buffer that keeps the
+    # part of another file read before an I/O error ends up, renamed atomically, in the next file)
+    from . import c03 as _c03
+    from .c09 import _run_as
+    _run_as(_c03, _c03._Only(ctx, "C07-R6", ("read-exact", "contents-unmodified", "contents-passed")), ctx)
     ctx.assume("POSIX rename(2) atomically replaces the destination; fsync makes the scratch contents durable")
     ctx.assume("async-std's File buffers writes until flush (documented), and sync_all issues fsync")
     ctx.assume("a rename across filesystems fails with EXDEV without touching the destination (then C08 applies)")
